@@ -8,6 +8,7 @@ for id in $IDS; do
   git -C /repo worktree remove --force $WT 2>/dev/null
   git -C /repo worktree add -q --detach $WT HEAD || exit 2
   if grep -q neutralised_by_fix /verif/seeded/$id/meta.json; then echo "$id: neutralised by a later fix (skipped)"; continue; fi
+  if grep -q '"undetected": true' /verif/seeded/$id/meta.json; then echo "$id: recorded as not detected yet (open gap, DESIGN.md 9.12)"; continue; fi
   if ! git -C $WT apply --3way /verif/seeded/$id/patch.diff 2>/tmp/seed_regress.err; then echo "$id: patch does not apply ($(head -1 /tmp/seed_regress.err))"; continue; fi
   CHECKS=$(python3 -c "import json;print(' '.join(json.load(open('/verif/seeded/$id/meta.json'))['checks']))")
   [ -n "$ONLY_FIRST" ] && CHECKS=$(echo $CHECKS | cut -d' ' -f1)
